@@ -113,9 +113,17 @@ type world struct {
 	mu     simsync.Mutex
 	seq    int
 	recs   []*rec
+	calls  []*tcall             // every TryTransition call made by the clients (requests and API-rule GO_ERRORs)
 	hooks  map[string]*hookSpec // by role path
 	group  map[string]int       // trigger expr -> number of members started in the current phase
 	groupN map[string]int
+}
+
+// tcall: one call of TryTransition as its caller saw it
+type tcall struct {
+	event    string
+	inv, ret int
+	errS     string
 }
 
 var cur *world // the probe plugin is process-global; one run at a time per process
@@ -490,8 +498,16 @@ func body(c *hk.Ctx) {
 					}
 					return nil
 				}))
+				tc := &tcall{event: r.Event, inv: r.invoke, ret: w.add(&rec{kind: "call-return", name: r.Event}).seq}
+				if err != nil {
+					tc.errS = err.Error()
+				}
+				w.mu.Lock()
+				w.calls = append(w.calls, tc)
+				w.mu.Unlock()
 				if err != nil {
 					r.Err = err.Error()
+					gc := &tcall{event: "GO_ERROR", inv: w.add(&rec{kind: "call-invoke", name: "GO_ERROR"}).seq}
 					// what every caller in the core does after a failed transition (API rule):
 					// GO_ERROR, forced if refused
 					goErr := env.TryTransition(environment.NewTransitionForVerif("GO_ERROR", func(e *environment.Environment) error {
@@ -499,6 +515,13 @@ func body(c *hk.Ctx) {
 						w.add(&rec{kind: "body-end", name: "GO_ERROR"})
 						return nil
 					}))
+					gc.ret = w.add(&rec{kind: "call-return", name: "GO_ERROR"}).seq
+					if goErr != nil {
+						gc.errS = goErr.Error()
+					}
+					w.mu.Lock()
+					w.calls = append(w.calls, gc)
+					w.mu.Unlock()
 					if goErr != nil {
 						c.Count("probe.forced_error_state")
 						w.add(&rec{kind: "force-begin", state: "ERROR"})
@@ -643,6 +666,54 @@ func check(c *hk.Ctx, w *world, sc *scenario, env *environment.Environment, prop
 	if open != nil {
 		viol("C01", "liveness", "transition-never-ended", "transition %s never ended", open.event)
 		return
+	}
+
+	// ---- every request is serialised: a call that was refused without ever taking its turn (no
+	// transition of its own between its invocation and its return) can only be right if the event is
+	// illegal in a state the environment was left in during that interval ----
+	{
+		taken := map[*bracket]bool{}
+		calls := append([]*tcall(nil), w.calls...)
+		sort.Slice(calls, func(i, j int) bool { return calls[i].ret < calls[j].ret })
+		for _, tc := range calls {
+			var own *bracket
+			for _, b := range brs {
+				if !taken[b] && b.event == tc.event && b.start > tc.inv && b.end < tc.ret {
+					own = b
+					break
+				}
+			}
+			if own != nil {
+				taken[own] = true
+				continue
+			}
+			if tc.errS == "" {
+				viol("C01", "serialised", "success-without-transition", "%s returned success (seq %d..%d) but the environment published no transition for it", tc.event, tc.inv, tc.ret)
+				continue
+			}
+			// states the environment was left in during [inv, ret]: after the last transition that ended
+			// before inv, and after every transition that ended inside the interval
+			states := []string{"STANDBY"}
+			for _, b := range brs {
+				if b.end < tc.inv {
+					states = []string{b.state}
+				}
+			}
+			for _, b := range brs {
+				if b.end > tc.inv && b.end < tc.ret {
+					states = append(states, b.state)
+				}
+			}
+			explained := forceOverlaps(0, tc.ret) // a forced ERROR before or during the call: ERROR may be what it saw
+			for _, st := range states {
+				if !legal(tc.event, st) {
+					explained = true
+				}
+			}
+			if !explained {
+				viol("C01", "serialised", "legal-request-refused-out-of-turn:"+tc.event, "%s (seq %d..%d) was refused with %q without a transition of its own, although it is legal in every state the environment was left in meanwhile (%v): it did not wait for its turn", tc.event, tc.inv, tc.ret, tc.errS, states)
+			}
+		}
 	}
 
 	// ---- pass B: reference execution of the brackets in serialisation order ----
